@@ -288,6 +288,9 @@ func observe(c *Case, r *mon.Rec, in []byte, tail []byte) {
 				break
 			}
 		}
+		if !r0.panicked && r0.err == nil && (e.Kind == "req" || e.Kind == "resp") && libx.IsNilValue(r0.v) {
+			r.Violate(c, "neither-value-nor-error", mon.Attrs{"entry": e.Name}, fmt.Sprintf("input (%d bytes) % x: returned a nil value and a nil error", len(in), head(in)))
+		}
 		if !r0.panicked && r0.err != nil {
 			switch e.Kind {
 			case "req", "resp":
